@@ -47,6 +47,8 @@ func run(c *Ctx) {
 	ml.RecordOutcome(c, ml.ScWorkerLostWakeup("rtpdemuxer.beforePop", "rtp.(*Demuxer).process"), "c03")
 	ml.RecordOutcome(c, ml.ScWorkerLostWakeup("flvmuxer.beforePop", "flv.(*Muxer).process"), "c03")
 	ml.RecordOutcome(c, ml.ScWorkerLostWakeup("tsmuxer.beforePop", "mpegts.(*Muxer).process"), "c03")
+	ml.RecordOutcome(c, ml.ScCloseAttachStress(c.Budget(120, 1500), false), "c03")
+	ml.RecordOutcome(c, ml.ScCloseAttachStress(c.Budget(60, 600), true), "c03")
 	ml.FlvWireRuns(c)
 	ml.StressRuns(c, "c03", c.Budget(6, 60))
 	for _, hevc := range []bool{false, true} {
